@@ -4,6 +4,7 @@
 From Coq Require Import String List Bool.
 From CF Require Import Model.Tables Model.TableSem Proofs.TableProofs Proofs.FactsDispatch Proofs.FactsSafeSlots.
 From CF Require Import Gen.GenExports Gen.GenSafe Gen.GenMacros Gen.GenDispatch.
+From CF Require Import Model.Exports Model.Safe Proofs.SafeSem.
 Import ListNotations.
 
 (* The macro's early-return chain selects, for EVERY build configuration, every combination of predicate
@@ -40,6 +41,25 @@ Theorem C09_slots :
                       /\ e_ty e = s_ty s /\ e_op e = k
                       /\ e_reg e = allowed_backend (ds_slot d) (s_ty s).
 Proof. exact C09_slots_proof. Qed.
+
+(* C09_result: in the semantics of the generated tables (Model/Safe.run_safe), a safe call that passes the wrapper's
+   assert list returns EXACTLY the outcome of the export sitting in the slot the chain selected - the routine of the
+   same element type and operation on that slot's back end ([allowed_backend x ty]: Avx512, Avx2Fma for floats / Avx2
+   for integers, Avx2, Neon, Fallback) - for any element type and any semantics [rx] of exports, every build
+   configuration and arbitrary predicate outcomes.  Hence exactly one candidate is invoked and every per-export theorem
+   (C02/C03/C04/C05/C06) transfers to the safe API. *)
+Theorem C09_result :
+  forall (T : Type) (rx : export -> form -> bool -> nat -> T -> list T -> list T -> list T -> xoutcome T)
+         s f bc p debug m sf k x,
+    In s safe_entries -> find_safe_macro safe_macros (s_macro s) = Some m -> safe_fn_of m f = Some sf ->
+    safe_kernel s = Some k -> select_chain dispatch_chain bc p (supplied_of sf) = Some x ->
+    forall DIMS v a b res,
+      let l := {| len_a := List.length a; len_b := List.length b; len_r := List.length res; len_dims := DIMS |} in
+      asserts_pass l (sf_asserts sf) = true ->
+      (debug = true -> asserts_pass l (sf_debug_asserts sf) = true) ->
+      run_safe dispatch_chain rx exports safe_macros s f bc p debug DIMS v a b res
+      = rx (key_export (s_ty s, allowed_backend x (s_ty s), k)) f debug DIMS v a b res.
+Proof. exact @safe_run_is_export_run. Qed.
 
 Example C09_nonvacuous :
   length safe_entries = 190 /\ length dispatch_chain = 5 /\
